@@ -156,3 +156,77 @@ for mode in ("wb", "ab"):
                                     dropped=["docstring", "logger.debug call"],
                                     canaries=[("flag set only after a body was written", "                self._header_written = True\n", "                pass\n")] if (mode == "wb" and not hw and hh) else []))
 CONTRACTS += WRITERS
+
+
+# --- VCF: POS is 0-based in memory and 1-based in the file: +1 on BOTH write paths, on a NEW column (the table being written is not touched) ---------
+def _VB():
+    from bionumpy.io.vcf_buffers import VCFBuffer
+    return VCFBuffer
+
+
+class _Capture:
+    def __init__(self, st):
+        self.st = st
+
+    def __call__(self, ip, args, kwargs, lineno):
+        self.st.passed_on = args[-1] if args else None
+        return Opaque("buffer bytes (DelimitedBuffer.from_data)")
+
+
+def _setup_vcf_fd(ctx):
+    st = St()
+    st.n = z3.Int("n")
+    st.pos, st.other = z3.Function("position", z3.IntSort(), z3.IntSort()), z3.Function("other", z3.IntSort(), z3.IntSort())
+    st.pcol, st.ocol = SArr.fresh(st.n, lambda i: st.pos(I(i))), SArr.fresh(st.n, lambda i: st.other(I(i)))
+    st.p_at0 = st.pcol.buf.at
+    st.table = STable({"chromosome": st.ocol, "position": st.pcol}, st.n)
+    st.args = [_VB(), st.table]
+    st.passed_on = None
+    _hv["st"] = st
+    return st
+
+
+_hv = {}
+
+
+def _ens_vcf_fd(ctx, st, ret):
+    t = st.passed_on
+    return [("the.generic.writer.receives.a.table", isinstance(t, STable)),
+            ("written.POS = position + 1", Forall(lambda i: Implies(in_range(i, st.n), I(t.cols["position"].at(i)) == st.pos(i) + 1)) if isinstance(t, STable) else False),
+            ("rows", I(t.cols["position"].length) == st.n if isinstance(t, STable) else False),
+            ("other.columns.passed.through", isinstance(t, STable) and t.cols["chromosome"] is st.ocol),
+            ("frame: the table being written keeps its position column (no in-place +1)", st.pcol.buf.at is st.p_at0 and st.table.cols["position"] is st.pcol)]
+
+
+vcf_from_data = Contract("C03.VCFBuffer.from_data[POS+1]", target=lambda: _VB().from_data.__func__, setup=_setup_vcf_fd, requires=lambda ctx, st: [st.n >= 0],
+                         ensures=_ens_vcf_fd, decorators={"@classmethod": "receiver is the class"},
+                         callees={"bionumpy.io.delimited_buffers.DelimitedBuffer.from_data": lambda ip, args, kwargs, lineno: _Capture(_hv["st"])(ip, args, kwargs, lineno)},
+                         canaries=[("POS written 0-based", "position=data.position + 1", "position=data.position + 0"),
+                                   ("+1 applied in place on the caller's column", "data = dataclasses.replace(data, position=data.position + 1)", "data.position += 1")])
+
+
+def _setup_vcf_pf(name):
+    def setup(ctx):
+        st = St()
+        st.n = z3.Int("n")
+        st.val = z3.Function("value", z3.IntSort(), z3.IntSort())
+        st.col = SArr.fresh(st.n, lambda i: st.val(I(i)))
+        st.at0 = st.col.buf.at
+        st.args = [_VB(), name, st.col]
+        return st
+    return setup
+
+
+vcf_field_pos = Contract("C03.VCFBuffer.process_field_for_write[position]", target=lambda: _VB().process_field_for_write.__func__, setup=_setup_vcf_pf("position"),
+                         requires=lambda ctx, st: [st.n >= 0],
+                         ensures=lambda ctx, st, ret: [("written.POS = position + 1", Forall(lambda i: Implies(in_range(i, st.n), I(ret.at(i)) == st.val(i) + 1))),
+                                                       ("rows", I(ret.length) == st.n), ("frame: column not modified", st.col.buf.at is st.at0)],
+                         decorators={"@classmethod": "receiver is the class"},
+                         canaries=[("lazy write path forgets the +1", "return value+1", "return value")])
+vcf_field_other = Contract("C03.VCFBuffer.process_field_for_write[other field]", target=lambda: _VB().process_field_for_write.__func__, setup=_setup_vcf_pf("ref_seq"),
+                           requires=lambda ctx, st: [st.n >= 0],
+                           ensures=lambda ctx, st, ret: [("other.fields.unchanged", ret is st.col)],
+                           decorators={"@classmethod": "receiver is the class"},
+                           callees={"bionumpy.io.delimited_buffers.DelimitedBuffer.process_field_for_write": lambda ip, args, kwargs, lineno: args[-1]},
+                           canaries=[("every field shifted", "if field_name == 'position':", "if True:")])
+CONTRACTS += [vcf_from_data, vcf_field_pos, vcf_field_other]
